@@ -14,6 +14,7 @@ import (
 	"reflect"
 	"sort"
 	"strings"
+	"time"
 	"unsafe"
 
 	"github.com/whoisnian/glb/httpd"
@@ -57,7 +58,12 @@ var requests = []request{
 	{"GET", "/w/"},         // trailing slash on the * route: empty rest
 	{"GET", "/u/fwd/1"},    // the handler forwards another request into the same Mux with its own writer (s.W), then looks again
 	{"GET", "/u/sub/1"},    // the handler sets a status, serves an independent sub-request (fresh writer) through the same Mux, then looks again
+	{"GET", "/u/reg/1"},    // the handler itself registers the late route (same goroutine, no concurrency): later requests see a table like any other
 }
+
+// regHung: an implementation may not support Handle from inside a handler (say, it holds a lock
+// while serving); the statement does not demand it, so such a request is then not used at all
+var regHung bool
 
 // one observation made inside a handler
 type seen struct {
@@ -163,6 +169,10 @@ func (w *world) register(r route) {
 			}()
 			w.observe("route-after-inner-request", s)
 		}
+		if s.RouteParam("a") == "reg" && !w.me().late && w.me() == w {
+			w.register(lateRoute)
+			w.observe("route-after-registering", s)
+		}
 		if s.RouteParam("a") == "escape" {
 			s.W.WriteHeader(503)
 			panic(escapingPanic)
@@ -187,7 +197,25 @@ func (w *world) serve(q request) (log []seen, escaped any) {
 		}
 		log = w.log
 	}()
-	w.mux.ServeHTTP(&nullWriter{h: http.Header{}}, &http.Request{Method: q.method, URL: &url.URL{Path: q.path}, RequestURI: q.path, RemoteAddr: "10.0.0.1:1234"})
+	req := &http.Request{Method: q.method, URL: &url.URL{Path: q.path}, RequestURI: q.path, RemoteAddr: "10.0.0.1:1234"}
+	if strings.HasPrefix(q.path, "/u/reg/") {
+		// guarded: registering from inside a handler may legitimately block for ever
+		done := make(chan any, 1)
+		go func() {
+			defer func() { done <- recover() }()
+			w.mux.ServeHTTP(&nullWriter{h: http.Header{}}, req)
+		}()
+		select {
+		case r := <-done:
+			if r != nil {
+				panic(r)
+			}
+		case <-time.After(20 * time.Second):
+			regHung = true
+		}
+		return
+	}
+	w.mux.ServeHTTP(&nullWriter{h: http.Header{}}, req)
 	return
 }
 
@@ -348,6 +376,9 @@ func apply(s *sys, op int) string {
 		return ""
 	}
 	q, choice := requests[op/nPool], op%nPool
+	if regHung && strings.HasPrefix(q.path, "/u/reg/") {
+		return ""
+	}
 	vsync.FreeChooser = func(p *vsync.Pool, n int) int {
 		switch choice {
 		case 0:
@@ -361,8 +392,12 @@ func apply(s *sys, op int) string {
 		return n
 	}
 	defer func() { vsync.FreeChooser = nil }()
+	lateBefore := s.w.late // the table the request met (its handler may register the late route)
 	log, esc := s.w.serve(q)
-	if m := compare(q, s.w.late, log, esc); m != "" {
+	if regHung {
+		return "" // nothing is judged after a registration from inside a handler did not come back
+	}
+	if m := compare(q, lateBefore, log, esc); m != "" {
 		return m
 	}
 	now := map[string]bool{}
@@ -383,6 +418,9 @@ func apply(s *sys, op int) string {
 func enabled(s *sys, op int) bool {
 	if op == len(requests)*nPool {
 		return !s.w.late
+	}
+	if regHung && strings.HasPrefix(requests[op/nPool].path, "/u/reg/") {
+		return false
 	}
 	if op%nPool == 1 {
 		p := poolOf(s.w.mux)
